@@ -127,6 +127,50 @@ fn ms_lane<C: ScriptContext>(node: &Node, ctx: Ctx, src: &mut Src, rep: &mut Rep
     if multiset(keys_in_text(&ms.to_string())) != want {
         return fail("keys-in-text/miniscript", format!("keys in the string form {:?} differ from AST keys {:?}", keys_in_text(&ms.to_string()), want));
     }
+    // the structural iterators: iter() is the pre-order walk of the expression tree; branches(),
+    // get_nth_child and get_nth_pk describe every node as the mirror does
+    {
+        let mut pre: Vec<&Node> = Vec::new();
+        fn walk<'a>(n: &'a Node, out: &mut Vec<&'a Node>) {
+            out.push(n);
+            for c in n.children() {
+                walk(c, out);
+            }
+        }
+        walk(&named, &mut pre);
+        let got: Vec<&Miniscript<String, C>> = ms.iter().collect();
+        if got.len() != pre.len() {
+            return fail("iter/count", format!("iter() yields {} nodes, the expression `{}` has {}", got.len(), text, pre.len()));
+        }
+        for (g, w) in got.iter().zip(pre.iter()) {
+            let gn = ast::from_lib(*g);
+            if &gn != *w {
+                return fail("iter/order", format!("iter() yields `{}` where the pre-order walk of `{}` has `{}`", g, text, ast::print(w, true)));
+            }
+            let wc = w.children();
+            let br = g.branches();
+            if br.len() != wc.len() || br.iter().zip(wc.iter()).any(|(b2, c)| &ast::from_lib(*b2) != *c) {
+                return fail("iter/branches", format!("branches() of `{}` gives {} nodes, expected the {} children", g, br.len(), wc.len()));
+            }
+            for i in 0..wc.len() + 2 {
+                let c = g.get_nth_child(i).map(|x| ast::from_lib(x));
+                let want_c = wc.get(i).map(|x| (*x).clone());
+                if c != want_c {
+                    return fail("iter/get-nth-child", format!("get_nth_child({}) of `{}` is {:?}", i, g, c.map(|x| ast::print(&x, true))));
+                }
+            }
+            let own: Vec<String> = match w {
+                Node::PkK(k) | Node::PkH(k) => vec![k.clone()],
+                Node::Multi(_, ks) | Node::SortedMulti(_, ks) | Node::MultiA(_, ks) | Node::SortedMultiA(_, ks) => ks.clone(),
+                _ => vec![],
+            };
+            for i in 0..own.len() + 2 {
+                if g.get_nth_pk(i) != own.get(i).cloned() {
+                    return fail("iter/get-nth-pk", format!("get_nth_pk({}) of `{}` is {:?}, expected {:?}", i, g, g.get_nth_pk(i), own.get(i)));
+                }
+            }
+        }
+    }
     if !want.is_empty() {
         let bad = src.pick(&want).clone();
         let r = ms.for_each_key(|k| *k != bad);
@@ -235,7 +279,7 @@ fn ms_lane<C: ScriptContext>(node: &Node, ctx: Ctx, src: &mut Src, rep: &mut Rep
 impl Check for C20 {
     fn id(&self) -> &'static str { "C20" }
     fn rule(&self) -> String {
-        "case = miniscript (4 contexts), descriptor (all output types, taproot trees) or concrete/semantic policy with String keys K0..Kn in asymmetric positions; translators: identity, injective renaming, composition of two renamings vs. the one-step composite, String->concrete keys, translator failing on the i-th call, mapping one key to an uncompressed key in Segwitv0/Tap. Oracle: mirror AST with keys mapped by the same function; types equal; script of the translated value == own encoding of the key-substituted AST; failure kinds (TranslatorErr vs OuterError); iter_pk / for_each_key / for_any_key / Concrete::keys visit exactly the key multiset of the mirror AST == keys tokenised from the string form; for_each_key is false iff a key fails the predicate. Non-trivial = >= 3 keys; distinct by text.".into()
+        "case = miniscript (4 contexts), descriptor (all output types, taproot trees) or concrete/semantic policy with String keys K0..Kn in asymmetric positions; translators: identity, injective renaming, composition of two renamings vs. the one-step composite, String->concrete keys, translator failing on the i-th call, mapping one key to an uncompressed key in Segwitv0/Tap. Oracle: mirror AST with keys mapped by the same function; types equal; script of the translated value == own encoding of the key-substituted AST; failure kinds (TranslatorErr vs OuterError); iter_pk / for_each_key / for_any_key / Concrete::keys visit exactly the key multiset of the mirror AST == keys tokenised from the string form; for_each_key is false iff a key fails the predicate. Non-trivial = >= 3 keys; distinct by text. Miniscript::iter() must be the pre-order walk of the mirror tree, and branches() / get_nth_child(i) / get_nth_pk(i) must describe every node as the mirror does (also for out-of-range i).".into()
     }
     fn lanes(&self, tier: Tier) -> Vec<(&'static str, usize, usize)> {
         match tier {
